@@ -4,9 +4,12 @@
   (Jesse/Metrics.lean, tied to the real code by correspondence on every run), for ALL trade lists /
   balance series / session lengths.  PROPERTY THEOREMS ONLY (helpers in Proofs/Lemmas/Metrics.lean).
 
-  Where the unchanged code does not satisfy a clause, the full statement is kept in the doc comment,
-  a `…_partial` theorem carries the exact extra hypothesis, a theorem states what the code computes
-  instead, and `…_fails` proves the negation on a concrete witness (`decide +kernel`).
+  Where the unchanged code does not satisfy a clause (now only the sample count of the fast
+  simulator with multi-day chunks), the full statement is kept in the doc comment, the `…_partial`
+  version carries the exact extra hypothesis, another one states what the code computes instead, and
+  `…_fails` proves the negation on a concrete witness (`decide +kernel`).  The drawdown, Calmar,
+  Sortino and spot-sample clauses hold at full strength since the repairs 5df2a81f, 8600f13b, 34cd8255
+  (their former counter-witnesses are kept as regression `example`s).
 -/
 import Proofs.Lemmas.Metrics
 
@@ -175,43 +178,39 @@ theorem streaks_are_run_lengths (sb : Rat) (ts : List Trade) :
 
 /-! ## maximum drawdown -/
 
-/-- FULL STATEMENT (not satisfied by the unchanged code): for every series of positive daily
-    balances with at least two entries, `max_drawdown` is the standard maximum drawdown of the
-    series, the starting balance being its first point:
-    `maxDrawdownPct bal = (Spec.maxDrawdown bal).map (· * 100)`.
-    The code builds prices from `pct_change`, whose first row is NaN, so the starting balance is never
-    a candidate peak.  Exact extra hypothesis: the first recorded day is not below the start. -/
-theorem max_drawdown_is_standard_partial (b0 b1 : Rat) (bs : List Rat)
-    (h0 : 0 < b0) (h1 : 0 < b1) (hs : ∀ x ∈ bs, 0 < x) (hle : b0 ≤ b1) :
+/-- for every series of positive daily balances with at least two entries, `max_drawdown` is the
+    standard maximum drawdown of the series, the starting balance being its first point
+    (`min_t equity_t / max_{s ≤ t} equity_s − 1`, in percent) -/
+theorem max_drawdown_is_standard (b0 b1 : Rat) (bs : List Rat)
+    (h0 : 0 < b0) (h1 : 0 < b1) (hs : ∀ x ∈ bs, 0 < x) :
     maxDrawdownPct (b0 :: b1 :: bs) = (Spec.Metrics.maxDrawdown (b0 :: b1 :: bs)).map (· * 100) := by
   unfold maxDrawdownPct
   rw [if_neg (by simp)]
-  rw [maxDrawdown_pctChange b0 b1 bs h0 (ne_of_gt h1) (fun x hx => ne_of_gt (hs x hx)),
-    spec_maxDrawdown_drop_start b0 b1 bs (ne_of_gt h0) (ne_of_gt h1) hle]
-example : (0:Rat) < 100 ∧ (0:Rat) < 110 ∧ (∀ x ∈ [(95:Rat)], 0 < x) ∧ (100:Rat) ≤ 110 := by
-  refine ⟨by decide +kernel, by decide +kernel, ?_, by decide +kernel⟩
+  rw [maxDrawdown_pctChange b0 (b1 :: bs) h0 (by
+    intro x hx; rcases List.mem_cons.mp hx with hx | hx
+    · rw [hx]; exact ne_of_gt h1
+    · exact ne_of_gt (hs x hx))]
+example : (0:Rat) < 100 ∧ (0:Rat) < 90 ∧ (∀ x ∈ [(95:Rat)], 0 < x) := by
+  refine ⟨by decide +kernel, by decide +kernel, ?_⟩
   intro x hx; simp at hx; rw [hx]; decide +kernel
+/-- regression witness of the repaired defect: balances 100, 90, 95 report −10 % -/
+example : decide (maxDrawdownPct [100, 90, 95] = some (-10)) = true := by decide +kernel
 
-/-- what the code computes instead: the standard drawdown of the series WITHOUT the starting balance -/
-theorem max_drawdown_ignores_start (b0 b1 : Rat) (bs : List Rat)
-    (h0 : 0 < b0) (h1 : 0 < b1) (hs : ∀ x ∈ bs, 0 < x) :
-    maxDrawdownPct (b0 :: b1 :: bs) = (Spec.Metrics.maxDrawdown (b1 :: bs)).map (· * 100) := by
-  unfold maxDrawdownPct
-  rw [if_neg (by simp)]
-  rw [maxDrawdown_pctChange b0 b1 bs h0 (ne_of_gt h1) (fun x hx => ne_of_gt (hs x hx))]
-
-/-- the negation of the full statement on a witness: balances 100, 90, 95 report 0 %, standard −10 % -/
-theorem max_drawdown_is_standard_fails :
-    decide (maxDrawdownPct [100, 90, 95] = some 0
-      ∧ (Spec.Metrics.maxDrawdown [100, 90, 95]).map (· * 100) = some (-10)) = true := by
-  decide +kernel
+/-- the drawdown in the denominator of `calmar_ratio` is the absolute value of the same standard
+    drawdown (as a fraction) -/
+theorem calmar_drawdown_is_standard (b0 : Rat) (bs : List Rat) (h0 : 0 < b0) (hs : ∀ x ∈ bs, 0 < x) :
+    calmarDrawdown (pctChange (b0 :: bs)) = (Spec.Metrics.maxDrawdown (b0 :: bs)).map absR :=
+  calmarDrawdown_pctChange b0 bs h0 (fun x hx => ne_of_gt (hs x hx))
+example : (0:Rat) < 100 ∧ (∀ x ∈ [(90:Rat)], 0 < x) := by
+  refine ⟨by decide +kernel, ?_⟩
+  intro x hx; simp at hx; rw [hx]; decide +kernel
 
 /-- maximum drawdown is never positive (positive equity) -/
 theorem max_drawdown_nonpositive (b0 b1 : Rat) (bs : List Rat)
     (h0 : 0 < b0) (h1 : 0 < b1) (hs : ∀ x ∈ bs, 0 < x) :
     ∃ d, maxDrawdownPct (b0 :: b1 :: bs) = some d ∧ d ≤ 0 := by
-  rw [max_drawdown_ignores_start b0 b1 bs h0 h1 hs]
-  obtain ⟨d, hd, hle⟩ := spec_maxDrawdown_nonpos b1 bs (ne_of_gt h1)
+  rw [max_drawdown_is_standard b0 b1 bs h0 h1 hs]
+  obtain ⟨d, hd, hle⟩ := spec_maxDrawdown_nonpos b0 (b1 :: bs) (ne_of_gt h0)
   rw [hd]
   exact ⟨d * 100, rfl, by linarith⟩
 example : (0:Rat) < 100 ∧ (0:Rat) < 90 ∧ (∀ x ∈ [(95:Rat)], 0 < x) := by
@@ -253,33 +252,14 @@ example : (100:Rat) ≠ 0 ∧ (90:Rat) ≠ 0 ∧ (∀ x ∈ [(95:Rat)], x ≠ 0)
   refine ⟨by decide +kernel, by decide +kernel, ?_, by simp⟩
   intro x hx; simp at hx; rw [hx]; decide +kernel
 
-/-- FULL STATEMENT (not satisfied by the unchanged code): the downside deviation of Sortino is the
-    root of the downside mean square over the `N` daily returns:
-    `downsideSq (pctChange bal) = Spec.downsideMeanSq (Spec.returns bal)`.
-    The code divides by `len(returns)`, which counts the NaN first row of `pct_change`: `N + 1`.
-    Exact extra hypothesis: no negative daily return (then both sides are 0). -/
-theorem sortino_downside_partial (bal : List Rat)
-    (h : ∀ r ∈ Spec.Metrics.returns bal, 0 ≤ r) :
+/-- the downside deviation of Sortino is the root of the downside mean square over the `N` daily
+    returns (target 0): `Σ_{r<0} r² / N` — for every balance series -/
+theorem sortino_downside (bal : List Rat) :
     downsideSq (pctChange bal) = Spec.Metrics.downsideMeanSq (Spec.Metrics.returns bal) := by
   unfold downsideSq Spec.Metrics.downsideMeanSq
-  rw [validReturns_pctChange, ← negSqSum_eq, negSqSum_eq_zero_of_nonneg _ h]
-  simp
-example : ∀ r ∈ Spec.Metrics.returns [100, 110], (0:Rat) ≤ r := by
-  intro r hr; simp [Spec.Metrics.returns] at hr; rw [hr]; decide +kernel
-
-/-- what the code computes instead: the downside sum of squares over `N + 1` -/
-theorem sortino_downside_divisor (bal : List Rat) :
-    downsideSq (pctChange bal)
-      = Spec.Metrics.sum ((Spec.Metrics.returns bal).map (fun r => if r < 0 then r * r else 0))
-        / (bal.length : Rat) := by
-  unfold downsideSq
-  rw [validReturns_pctChange, negSqSum_eq, pctChange_length]
-
-/-- the negation of the full statement on a witness: balances 100, 90, 95 give 1/300, standard 1/200 -/
-theorem sortino_downside_fails :
-    decide (downsideSq (pctChange [100, 90, 95]) = 1 / 300
-      ∧ Spec.Metrics.downsideMeanSq (Spec.Metrics.returns [100, 90, 95]) = 1 / 200) = true := by
-  decide +kernel
+  rw [validReturns_pctChange, negSqSum_eq]
+/-- regression witness of the repaired defect: balances 100, 90, 95 give 1/200 (not 1/300) -/
+example : decide (downsideSq (pctChange [100, 90, 95]) = 1 / 200) = true := by decide +kernel
 
 /-! ## the equity series: how many samples -/
 
@@ -335,30 +315,44 @@ theorem equity_sample_value_futures (wallet : Rat) (ps : List FutPos) :
   unfold futuresEquity
   exact futuresSample_eq ps wallet
 
-/-- FULL STATEMENT (not satisfied by the unchanged code): spot: a sample is free quote + quote
-    reserved by the resting buy orders + market value of the held base over ALL routes, whatever
-    their number and order:
-    `spotSample free routes = spotEquity free (routes.map reservedQuote) (routes.map positionValue)`.
-    `portfolio_value` of the first position's strategy counts only ITS OWN route's entry orders.
-    Exact extra hypothesis: no other route has quote reserved in resting entry orders. -/
-theorem equity_sample_value_spot_partial (free : Rat) (r : SpotRoute) (rest : List SpotRoute)
-    (h : ∀ x ∈ rest, x.reservedQuote = 0) :
-    spotSample free (r :: rest)
-      = spotEquity free ((r :: rest).map (·.reservedQuote)) ((r :: rest).map (·.positionValue)) := by
-  unfold spotSample spotEquity
-  rw [positionsValue_eq]
-  simp only [List.map_cons, Spec.Metrics.sum, reserved_zero rest h]
-  ring
-example : ∀ x ∈ [(⟨0, 50⟩ : SpotRoute)], x.reservedQuote = 0 := by
-  intro x hx; simp at hx; rw [hx]
+/-- spot: a sample is free quote + quote reserved by the resting buy orders + market value of the
+    held base over ALL routes, whatever their number -/
+theorem equity_sample_value_spot (free : Rat) (routes : List SpotRoute) (h : routes ≠ []) :
+    spotSample free routes
+      = spotEquity free (routes.map (·.reservedQuote)) (routes.map (·.positionValue)) := by
+  cases routes with
+  | nil => exact absurd rfl h
+  | cons r rest =>
+    show (reservedTotal (r :: rest) + positionsValue (r :: rest)) * 1 + free = _
+    unfold spotEquity
+    rw [positionsValue_eq, reservedTotal_eq]
+    ring
+example : ([⟨281/2, 0⟩, ⟨1605/4, 0⟩] : List SpotRoute) ≠ [] := by simp
+/-- regression witness of the repaired defect: two routes with resting buys of 140.5 and 401.25 quote
+    and 9458.25 free quote sample 10000 -/
+example : decide (spotSample (37833/4) [⟨281/2, 0⟩, ⟨1605/4, 0⟩] = 10000) = true := by decide +kernel
 
-/-- the negation of the full statement on a witness (two routes, resting buys of 140.5 and 401.25
-    quote): the sample is 9598.75, the equity 10000 — and it depends on which route comes first -/
-theorem equity_sample_value_spot_fails :
-    decide (spotSample (37833/4) [⟨281/2, 0⟩, ⟨1605/4, 0⟩] = 38395/4
-      ∧ spotEquity (37833/4) [281/2, 1605/4] [0, 0] = 10000
-      ∧ spotSample (37833/4) [⟨1605/4, 0⟩, ⟨281/2, 0⟩] = 39438/4) = true := by
-  decide +kernel
+/-- … and whatever their order: a sample is invariant under every permutation of the routes
+    (spot) / of the positions (futures) -/
+theorem equity_sample_order_independent (balance : Rat) :
+    (∀ r₁ r₂ : List SpotRoute, r₁.Perm r₂ → spotSample balance r₁ = spotSample balance r₂)
+    ∧ (∀ p₁ p₂ : List FutPos, p₁.Perm p₂ → futuresSample balance p₁ = futuresSample balance p₂) := by
+  constructor
+  · intro r₁ r₂ hp
+    cases r₁ with
+    | nil =>
+      have : r₂ = [] := List.length_eq_zero_iff.mp (by rw [← hp.length_eq]; rfl)
+      rw [this]
+    | cons a as =>
+      have hne : r₂ ≠ [] := by
+        intro h0; have := hp.length_eq; rw [h0] at this; simp at this
+      rw [equity_sample_value_spot balance (a :: as) (by simp), equity_sample_value_spot balance r₂ hne]
+      unfold spotEquity
+      rw [sum_perm (hp.map (·.reservedQuote)), sum_perm (hp.map (·.positionValue))]
+  · intro p₁ p₂ hp
+    rw [futuresSample_eq, futuresSample_eq]
+    rw [sum_perm ((hp.filter (·.isOpen)).map (·.pnl))]
+example : ([⟨1, 2⟩, ⟨3, 4⟩] : List SpotRoute).Perm [⟨3, 4⟩, ⟨1, 2⟩] := List.Perm.swap _ _ _
 
 /-- the series starts at the starting balance and ends at the final portfolio value: with every
     position closed and nothing reserved (a fresh account; an account after `_terminate`) a sample is
@@ -374,17 +368,17 @@ theorem equity_endpoints (balance : Rat) :
       rw [List.filter_eq_nil_iff]; intro p hp; simp [h p hp]
     rw [this]; simp [Spec.Metrics.sum]
   · intro r rest h
-    have hv : Spec.Metrics.sum ((r :: rest).map (·.positionValue)) = 0 := by
-      have : ∀ l : List SpotRoute, (∀ x ∈ l, x.positionValue = 0) → Spec.Metrics.sum (l.map (·.positionValue)) = 0 := by
-        intro l hl
-        induction l with
-        | nil => rfl
-        | cons y ys ih =>
-          simp only [List.map_cons, Spec.Metrics.sum, hl y List.mem_cons_self,
-            ih (fun x hx => hl x (List.mem_cons_of_mem _ hx))]; ring
-      exact this _ (fun x hx => (h x hx).2)
-    show (r.reservedQuote + positionsValue (r :: rest)) * 1 + balance = balance
-    rw [positionsValue_eq, hv, (h r List.mem_cons_self).1]
+    have zero : ∀ (f : SpotRoute → Rat) (l : List SpotRoute), (∀ x ∈ l, f x = 0) →
+        Spec.Metrics.sum (l.map f) = 0 := by
+      intro f l hl
+      induction l with
+      | nil => rfl
+      | cons y ys ih =>
+        simp only [List.map_cons, Spec.Metrics.sum, hl y List.mem_cons_self,
+          ih (fun x hx => hl x (List.mem_cons_of_mem _ hx))]; ring
+    rw [equity_sample_value_spot balance (r :: rest) (by simp)]
+    unfold spotEquity
+    rw [zero (·.reservedQuote) _ (fun x hx => (h x hx).1), zero (·.positionValue) _ (fun x hx => (h x hx).2)]
     ring
 
 end C16
